@@ -165,8 +165,8 @@ def export_to_csv(
 
         rows.append(row)
 
-    df = pd.DataFrame(rows)
-    df = df[header]
+    # pass the columns explicitly, so that an empty selection gives a header-only file
+    df = pd.DataFrame(rows, columns=header)
 
     # Also add a column with the track ID color
     if color_dict is not None:
